@@ -340,4 +340,7 @@ class Norm(Operation):
 
         if not self._nan_to_num:
             out[invalid_derivative] = np.nan
+        else:
+            # 0/0 (e.g. the L2 norm of an all-zero vector) must not leak through
+            out[x == 0] = 0.0
         return out
